@@ -108,48 +108,74 @@ func mInt(t string) Val  { return Val{Typ: mathInt, L: []string{t}} }
 func mBool(t string) Val { return Val{Typ: mathBool, L: []string{t}} }
 
 // stripSide: if the access path e is rooted at a pair-lemma side identifier (l.x.f[i]), return the
-// side and the expression with the side prefix removed.
-func stripSide(env *Env, e ast.Expr) (string, ast.Expr) {
+// side and the expression with the side prefix removed.  Index expressions are evaluated in the
+// outer environment (they may mention either side) and passed in as let-bound names.
+func (x *Exec) stripSide(env *Env, e ast.Expr, lets map[string]Val) (string, ast.Expr, error) {
 	switch t := e.(type) {
 	case *ast.SelectorExpr:
 		if id, ok := t.X.(*ast.Ident); ok {
 			if _, ok := env.sides[id.Name]; ok && env.bound[id.Name] == "" {
-				return id.Name, t.Sel
+				return id.Name, t.Sel, nil
 			}
 		}
-		if s, in := stripSide(env, t.X); s != "" {
-			return s, &ast.SelectorExpr{X: in, Sel: t.Sel}
+		s, in, err := x.stripSide(env, t.X, lets)
+		if s != "" || err != nil {
+			return s, &ast.SelectorExpr{X: in, Sel: t.Sel}, err
 		}
 	case *ast.IndexExpr:
-		if s, in := stripSide(env, t.X); s != "" {
-			return s, &ast.IndexExpr{X: in, Index: t.Index}
+		s, in, err := x.stripSide(env, t.X, lets)
+		if err != nil {
+			return "", nil, err
+		}
+		if s != "" {
+			iv, err := x.spec(env, t.Index)
+			if err != nil {
+				return "", nil, err
+			}
+			name := fmt.Sprintf("idx__%d", len(lets))
+			lets[name] = iv
+			return s, &ast.IndexExpr{X: in, Index: ast.NewIdent(name)}, nil
 		}
 	case *ast.StarExpr:
-		if s, in := stripSide(env, t.X); s != "" {
-			return s, &ast.StarExpr{X: in}
+		s, in, err := x.stripSide(env, t.X, lets)
+		if s != "" || err != nil {
+			return s, &ast.StarExpr{X: in}, err
 		}
 	case *ast.ParenExpr:
-		if s, in := stripSide(env, t.X); s != "" {
-			return s, &ast.ParenExpr{X: in}
+		s, in, err := x.stripSide(env, t.X, lets)
+		if s != "" || err != nil {
+			return s, &ast.ParenExpr{X: in}, err
 		}
 	}
-	return "", nil
+	return "", nil, nil
 }
 
 func (x *Exec) spec(env *Env, e ast.Expr) (Val, error) {
 	if env.sides != nil {
-		if s, in := stripSide(env, e); s != "" {
+		lets := map[string]Val{}
+		s, in, err := x.stripSide(env, e, lets)
+		if err != nil {
+			return Val{}, err
+		}
+		if s != "" {
 			side := env.sides[s]
 			sub := *side
 			sub.bound = env.bound
-			sub.lets = env.lets
+			for k, v := range env.lets {
+				lets[k] = v
+			}
+			sub.lets = lets
 			sub.sides = nil
 			sub.inOld = false
 			if env.inOld {
 				sub.st = side.old
 				sub.post = true
 			}
-			return x.spec(&sub, in)
+			v, err := x.spec(&sub, in)
+			if err == nil && v.Home == nil {
+				v.Home = sub.st
+			}
+			return v, err
 		}
 	}
 	switch t := e.(type) {
@@ -189,7 +215,7 @@ func (x *Exec) spec(env *Env, e ast.Expr) (Val, error) {
 		if _, ok := v.Typ.Underlying().(*types.Pointer); !ok {
 			return Val{}, fmt.Errorf("deref of non-pointer %s", exprStr(t.X))
 		}
-		return x.specRead(env, x.locOf(v)), nil
+		return x.specReadIn(env, homeOf(env, v), x.locOf(v)), nil
 	case *ast.BinaryExpr:
 		return x.specBinary(env, t)
 	case *ast.CallExpr:
@@ -220,7 +246,7 @@ func (x *Exec) specIndex(env *Env, base Val, idx string, e ast.Expr) (Val, error
 		if base.L[1] != "0" {
 			abs = "(+ " + base.L[1] + " " + idx + ")"
 		}
-		return x.specRead(env, x.sliceElemLoc(base, abs, u.Elem())), nil
+		return x.specReadIn(env, homeOf(env, base), x.sliceElemLoc(base, abs, u.Elem())), nil
 	case *types.Array:
 		out := Val{Typ: u.Elem()}
 		for _, l := range base.L {
@@ -230,16 +256,32 @@ func (x *Exec) specIndex(env *Env, base Val, idx string, e ast.Expr) (Val, error
 		return out, nil
 	case *types.Pointer:
 		if at, ok := u.Elem().Underlying().(*types.Array); ok {
-			return x.specRead(env, x.locOf(base).extend(Step{IsIdx: true, Idx: idx}, at.Elem())), nil
+			return x.specReadIn(env, homeOf(env, base), x.locOf(base).extend(Step{IsIdx: true, Idx: idx}, at.Elem())), nil
 		}
 	}
 	return Val{}, fmt.Errorf("cannot index value of type %s", base.Typ)
 }
 
 func (x *Exec) specRead(env *Env, loc *Loc) Val {
-	v := x.readLocRaw(env.st, loc)
+	return x.specReadIn(env, env.st, loc)
+}
+
+// specReadIn reads loc in state st (values taken from a pair-lemma side are read in that side's
+// state, wherever the expression is evaluated).
+func (x *Exec) specReadIn(env *Env, st *State, loc *Loc) Val {
+	v := x.readLocRaw(st, loc)
+	if st != env.st {
+		v.Home = st
+	}
 	x.specFacts(env, v)
 	return v
+}
+
+func homeOf(env *Env, v Val) *State {
+	if v.Home != nil {
+		return v.Home
+	}
+	return env.st
 }
 
 // specFacts asserts Go type invariants of values read in specifications (when closed terms).
@@ -495,28 +537,28 @@ func (x *Exec) specField(env *Env, base Val, name string, e ast.Expr) (Val, erro
 			return Val{}, fmt.Errorf("selector .%s on pointer to non-struct %s", name, u.Elem())
 		}
 		if isBytesBuffer(u.Elem()) {
-			return x.specBufferField(env, x.locOf(base), name)
+			return x.specBufferField(env, homeOf(env, base), x.locOf(base), name)
 		}
 		for i := 0; i < st.NumFields(); i++ {
 			if st.Field(i).Name() == name {
 				loc := x.locOf(base).extend(Step{Field: i}, st.Field(i).Type())
 				if isBytesBuffer(st.Field(i).Type()) {
 					// keep the location so that .len/.data can be selected next
-					return Val{Typ: types.NewPointer(st.Field(i).Type()), Loc: loc}, nil
+					return Val{Typ: types.NewPointer(st.Field(i).Type()), Loc: loc, Home: base.Home}, nil
 				}
 				if _, isStruct := st.Field(i).Type().Underlying().(*types.Struct); isStruct {
-					return Val{Typ: types.NewPointer(st.Field(i).Type()), Loc: loc}, nil
+					return Val{Typ: types.NewPointer(st.Field(i).Type()), Loc: loc, Home: base.Home}, nil
 				}
 				if _, isArr := st.Field(i).Type().Underlying().(*types.Array); isArr {
-					return Val{Typ: types.NewPointer(st.Field(i).Type()), Loc: loc}, nil
+					return Val{Typ: types.NewPointer(st.Field(i).Type()), Loc: loc, Home: base.Home}, nil
 				}
-				return x.specRead(env, loc), nil
+				return x.specReadIn(env, homeOf(env, base), loc), nil
 			}
 		}
 		// embedded fields (one level)
 		for i := 0; i < st.NumFields(); i++ {
 			if st.Field(i).Embedded() {
-				inner := Val{Typ: types.NewPointer(st.Field(i).Type()), Loc: x.locOf(base).extend(Step{Field: i}, st.Field(i).Type())}
+				inner := Val{Typ: types.NewPointer(st.Field(i).Type()), Loc: x.locOf(base).extend(Step{Field: i}, st.Field(i).Type()), Home: base.Home}
 				if v, err := x.specField(env, inner, name, e); err == nil {
 					return v, nil
 				}
@@ -539,8 +581,8 @@ func (x *Exec) specField(env *Env, base Val, name string, e ast.Expr) (Val, erro
 	return Val{}, fmt.Errorf("selector .%s on %s", name, base.Typ)
 }
 
-func (x *Exec) specBufferField(env *Env, loc *Loc, name string) (Val, error) {
-	v := x.readLocRaw(env.st, loc)
+func (x *Exec) specBufferField(env *Env, st *State, loc *Loc, name string) (Val, error) {
+	v := x.readLocRaw(st, loc)
 	switch name {
 	case "len":
 		return mInt(v.L[0]), nil
@@ -985,6 +1027,15 @@ func (x *Exec) useDef(name string) {
 	kw := "define-fun"
 	if d.Rec {
 		kw = "define-fun-rec"
+		if !x.reveal[name] {
+			// recursive spec functions are opaque (uninterpreted) unless the task reveals them
+			var sorts []string
+			for range d.Params {
+				sorts = append(sorts, "Int")
+			}
+			x.defDecls = append(x.defDecls, fmt.Sprintf("(declare-fun %s (%s) %s)", quoteSym("def_"+name), strings.Join(sorts, " "), srt))
+			return
+		}
 	}
 	x.defDecls = append(x.defDecls, fmt.Sprintf("(%s %s (%s) %s %s)", kw, quoteSym("def_"+name), strings.Join(ps, " "), srt, body))
 }
